@@ -36,7 +36,7 @@ CONSTANTS
     PrintShapes,  \* sequence of PRINT statements
     KnownStrings, \* memoisation only: strings / patterns whose order and matches are tabulated once at start-up
     KnownPats,    \*   (any other argument is computed directly by the same operators)
-    Variant       \* "shipped" | "no_where" | "order_by_name" | "balance_raw" | "print_keeps_null" | "journal_no_match"
+    Variant       \* "shipped" | "no_where" | "order_by_name" | "balance_raw" | "print_keeps_null" | "journal_no_match" | "flag_of_posting" | "attr_of_any_directive" | "single_account_attribute"
                   \* | "flag_of_posting" | "attr_of_any_directive"
 
 \* TLC evaluates a constant that the configuration overrides by a definition at EVERY reference; the aliases
@@ -193,6 +193,15 @@ Eval3(e, r) ==
 \* close = [k |-> "none" | "bare" | "on", d |-> date literal]
 NoFrom == [present |-> FALSE, expr |-> TrueE, open |-> <<>>, close |-> [k |-> "none", d |-> ""], clear |-> FALSE]
 HasClauses(fc) == fc.open # <<>> \/ fc.close.k # "none" \/ fc.clear
+\* "after OPEN / CLOSE / CLEAR": three transformations of the entry list.  A FROM clause that carries several of them
+\* means their application ONE AFTER THE OTHER, in that order: the entry list after the clauses fc is the entry list after
+\* the LAST clause of ClauseChain(fc), applied to the ledger that the clauses before it give.  (What a single clause does
+\* to a ledger is C13's subject.)  ClauseChain(fc): the clauses of fc as a sequence of single-clause records.
+NoClose == [k |-> "none", d |-> ""]
+ClauseChain(fc) ==
+    (IF fc.open = <<>> THEN <<>> ELSE <<[open |-> fc.open, close |-> NoClose, clear |-> FALSE]>>)
+    \o (IF fc.close.k = "none" THEN <<>> ELSE <<[open |-> <<>>, close |-> fc.close, clear |-> FALSE]>>)
+    \o (IF fc.clear THEN <<[open |-> <<>>, close |-> NoClose, clear |-> TRUE]>> ELSE <<>>)
 
 \* the postings table of a ledger (sequence of pool indices): one row per posting, in ledger order
 PostingRows(led) ==
@@ -213,8 +222,13 @@ DirRows(led) == [i \in 1..Len(led) |-> DirRow(DirPoolV[led[i]])]
 \* mechanism: the accessor of such a column applied to the directive object behind the row.  The code checks the type of
 \* the directive first; the broken variant hands out the attribute of whatever directive carries one of that name.
 AttrCol(d, v) == IF Variant = "attr_of_any_directive" THEN v ELSE TxnOnly(d, v)
+\* has_account(p) is about EVERY account a directive names, whatever attribute holds it: the postings of a transaction,
+\* `account` of open / close / balance / note / document -- and a pad names two (the account it pads AND the account the
+\* amount is taken from).  The broken variant looks at a single account attribute of a directive that is not a transaction.
+OneAccount(A) == IF A = {} THEN {} ELSE {CHOOSE a \in A : \A b \in A : a = b \/ StrLess(a, b)}
+AcctsCol(d) == IF Variant = "single_account_attribute" /\ d.type # "transaction" THEN OneAccount(d.accounts) ELSE d.accounts
 MechDirRow(d) == [d EXCEPT !.flag = AttrCol(d, d.flag), !.payee = AttrCol(d, d.payee), !.narration = AttrCol(d, d.narration),
-                           !.tags = AttrCol(d, d.tags), !.links = AttrCol(d, d.links)]
+                           !.tags = AttrCol(d, d.tags), !.links = AttrCol(d, d.links), !.accounts = AcctsCol(d)]
 
 \* (operators with a parameter: TLC evaluates parameterless constant definitions at start-up even when unused)
 Ledgers(m) == UNION {{s \in [1..n -> 1..Len(PoolV)] : \A i \in 1..(n - 1) : PoolV[s[i]].txn <= PoolV[s[i + 1]].txn}
